@@ -166,6 +166,7 @@ def corpus_numbers():
              b"#d-12.5e-1", b"#d1e2", b"#x1e2", b"#xe", b"#xE1", b"#b1e1", b"1e0", b"1e00000000000000000000001", b"1e99999999999999999999", b"0e99999999999999999999",
              b"1e-99999999999999999999", b"0.0", b"-0.0", b"5e-324", b"2e-324", b"1.7976931348623157e308", b"1.7976931348623159e308",
              b"#x1" + b"0" * 256, b"#x" + b"f" * 300, b"#b1" + b"0" * 1024, b"#o1" + b"0" * 342, b"#x1" + b"0" * 255, b"#x-1" + b"0" * 260, b"#b" + b"1" * 1100,
+             b"1e-616", b"1e-617", b"1e-1000", b"7.25e-620", b"-3e-99999", b"0e-700", b"1e-309", b"1e-325", b"123e-640",
              b"3.14159265358979323846264338328", b"6.0221407600000000000000000e23", b"184467440737095516150.5", b"0.10000000000000000000000000001",
              b"1.00000000000000000000000000000", b"99999999999999999999.99999999999999999999", b"18446744073709551615.5", b"1844674407370955161.65",
              b"0.000000000000000000000000000001234567890123456789012345", b"123456789012345678.90123456789e-5", b"-2.718281828459045235360287471352"]
